@@ -1,6 +1,8 @@
 package h
 
 import (
+	"time"
+
 	z "github.com/Oudwins/zog"
 	v "github.com/Oudwins/zog/zzverif"
 )
@@ -33,10 +35,10 @@ func shapeJobs() []string {
 	for _, m := range []string{"parse", "validate"} {
 		for d := 0; d < allDeco; d++ {
 			ds := "/d" + string(rune('0'+d))
-			for _, k := range []string{"int", "str", "bool"} {
+			for _, k := range []string{"int", "str", "bool", "float", "time"} {
 				out = append(out, m+"/T1/"+k+ds)
 			}
-			for _, sib := range []string{"int", "str", "slice", "struct", "ptr", "custom", "catchint", "stest", "ptrfocus"} {
+			for _, sib := range []string{"int", "str", "slice", "struct", "ptr", "custom", "catchint", "stest", "ptrfocus", "float", "time"} {
 				out = append(out, m+"/T2/"+sib+ds)
 			}
 			out = append(out, m+"/T3/int"+ds, m+"/T4/nested"+ds, m+"/T5/slicestruct"+ds, m+"/T6/ptrstruct"+ds)
@@ -82,6 +84,10 @@ func buildShape(job string) *shape {
 			sh.prim = newStr("p", deco, 2, classesFor(mode, []int{cMissing, cNil, cBlank, cVal, cAlt}))
 		case "bool":
 			sh.prim = newBool("p", deco, 1, classesFor(mode, fullClasses))
+		case "float":
+			sh.prim = newFloat("p", deco, 2, classesFor(mode, fullClasses))
+		case "time":
+			sh.prim = newTime("p", deco, 2, classesFor(mode, fullClasses), mode)
 		}
 	case "T2":
 		focus := newInt("a", fdeco, focusNT(), classesFor(mode, focusCls()))
@@ -102,6 +108,10 @@ func buildShape(job string) *shape {
 			keys, kids = append(keys, "j"), append(kids, newInt("b", dCatch|dReq, 1, classesFor(mode, []int{cMissing, cVal})))
 		case "str":
 			keys, kids = append(keys, "s"), append(kids, newStr("b", dReq, 1, classesFor(mode, []int{cMissing, cVal})))
+		case "float":
+			keys, kids = append(keys, "f"), append(kids, newFloat("b", dReq, 1, classesFor(mode, []int{cMissing, cVal, cBad})))
+		case "time":
+			keys, kids = append(keys, "w"), append(kids, newTime("b", dReq, 1, classesFor(mode, []int{cMissing, cVal, cBad}), mode))
 		case "slice":
 			el := newIntDeco("b.el", 0, 1)
 			keys, kids = append(keys, "lI"), append(kids, newSlice("b", dReq, 1, el, classesFor(mode, []int{cMissing, cVal}), classesFor(mode, []int{cVal, cBad}), sliceMax()))
@@ -163,6 +173,8 @@ type outcome struct {
 	dInt int
 	dStr string
 	dB   bool
+	dF   float64
+	dT   time.Time
 	dest Dest
 	dSl  []int
 }
@@ -202,6 +214,20 @@ func runReal(sh *shape) *outcome {
 				o.list = s.Parse(in, &o.dB)
 			} else {
 				o.list = s.Validate(&o.dB)
+			}
+		case *FloatNode:
+			n.Prep(sh.mode, &o.dF)
+			if sh.mode == Parse {
+				o.list = n.schema().Parse(in, &o.dF)
+			} else {
+				o.list = n.schema().Validate(&o.dF)
+			}
+		case *TimeNode:
+			n.Prep(sh.mode, &o.dT)
+			if sh.mode == Parse {
+				o.list = n.schema().Parse(in, &o.dT)
+			} else {
+				o.list = n.schema().Validate(&o.dT)
 			}
 		}
 	case sh.top != nil:
@@ -245,6 +271,10 @@ func (sh *shape) destPtr(o *outcome) any {
 		return &o.dStr
 	case *BoolNode:
 		return &o.dB
+	case *FloatNode:
+		return &o.dF
+	case *TimeNode:
+		return &o.dT
 	case *StructNode:
 		_ = n
 		return &o.dest
